@@ -31,6 +31,20 @@ THEOREMS = [
     "Opacus.C09.batch_wellformed",
     "Opacus.C09.epoch_len",
     "Opacus.C09.inclusion_epoch",
+    "Opacus.C09.shards_partition",
+    "Opacus.C09.dist_batch_wellformed",
+    "Opacus.C09.dist_epoch_len_repaired",
+    "Opacus.C09.dist_epoch_asCoded",
+    "Opacus.C09.dist_drops_empty_counterexample",
+    "Opacus.C09.empty_collate_shape_partial",
+    "Opacus.C09.empty_collate_repaired",
+    "Opacus.C09.empty_collate_counterexample",
+    "Opacus.C09.rate_consistency",
+    "Opacus.C09.rate_consistency_repaired",
+    "Opacus.C09.rate_consistency_counterexample",
+    "Opacus.C09.ebs_is_floor_partial",
+    "Opacus.C09.ebs_counterexample",
+    "Opacus.C09.grid_inclusion_probability",
 ]
 RULE = (
     "sampler case = (N, sample rate or (batch size -> L), seed, epochs, mode in {sampler, loader-sampler, loader}) drawn from VERIF_SEED; "
